@@ -158,6 +158,8 @@ type Step struct {
 	Cid   cid.Cid            // for pub
 	Panic string             // trimmed stack if the call panicked on the calling goroutine
 	PanV  string
+	// TimeAboveMin / TimeBelowMin: the appended entry's clock time differs from the smallest legal one
+	TimeAboveMin, TimeBelowMin bool
 }
 
 func (w *World) pc(o Op) int {
@@ -189,6 +191,18 @@ func (w *World) apply(o Op, st *Step) {
 		st.Err, st.Entry = err, e
 		if err == nil {
 			me := w.M.Append(w.ML[o.A])
+			// The model picks the smallest legal time (max seen + 1); the implementation may legitimately pick a
+			// larger one (its clock also advances on a refused append). Which time an append may carry is judged by
+			// C04 against the state before the call; for everything else (orderings) the model uses the entry's
+			// actual time, which is a fact of the entry.
+			if at := e.GetClock().GetTime(); at != me.Time {
+				w.M.Entries[me.UID].Time = at
+				if at > w.ML[o.A].Clock {
+					w.ML[o.A].Clock = at
+				}
+				st.TimeAboveMin = at > me.Time
+				st.TimeBelowMin = at < me.Time
+			}
 			st.UID = me.UID
 			w.UID[e.GetHash().String()] = me.UID
 			w.Ent = append(w.Ent, e)
